@@ -137,7 +137,7 @@ func c04Classify(x *engine.Exec, prev, next *world.Snap, p world.Pos, isActor bo
 	one := ratI(1)
 	// (iv) every share of the asset was slashed away (100% slash of all validators holding it) while the staked total
 	// stayed positive: the module prices any position at the whole total, the next depositor owns it
-	if a := prev.Assets[den]; a.TotalValidatorShares.IsZero() && a.TotalTokens.IsPositive() {
+	if a := prev.Assets[den]; a.TotalValidatorShares.IsZero() && a.TotalTokens.IsPositive() && historyHasSlash(x, -1, true) {
 		return "asset-fully-slashed-total-without-shares"
 	}
 	// validator the share issuance / removal happened on
